@@ -92,7 +92,7 @@ func canonicalList(dst *Segment, l List) (List, error) {
 	if !l.IsValid() {
 		return List{}, nil
 	}
-	if l.size.PointerCount == 0 {
+	if l.size.PointerCount == 0 && l.flags&isCompositeList == 0 {
 		// Data only, just copy over.
 		sz := l.allocSize()
 		_, newAddr, err := alloc(dst, sz)
